@@ -7,9 +7,36 @@ histories.
 """
 
 import ufl
-from mc import elements as E
+from mc import elements as _E0
 from ufl.cell import CellSequence
 from ufl.classes import CellVolume, Circumradius, FacetNormal, Jacobian, SpatialCoordinate
+
+def _stable(e):
+    """Give a harness element a repr that does not depend on the hash seed.
+
+    mc.elements embeds repr(sobolev_space) in the element repr (= its signature data);
+    SobolevSpace.__repr__ lists a frozenset of parents, whose order depends on PYTHONHASHSEED.  That is
+    an artefact of the harness elements (the elements of the repo's own tests print the space *name*),
+    so it is removed here: the hash-seed runs must only see UFL's own behaviour.
+    """
+    subs = [_stable(s) for s in e.sub_elements]
+    if type(e) is _E0.Elem:
+        e._rep = (
+            f"Elem({e._family!r}, {e.cell!r}, {e._degree}, {e._rvs}, {e.pullback!r}, {e.sobolev_space.name!r})"
+        )
+    else:
+        e._rep = f"{type(e).__name__}({subs!r})"
+    return e
+
+
+class E:
+    """The element factories of mc.elements with stable reprs."""
+
+    P = staticmethod(lambda *a, **k: _stable(_E0.P(*a, **k)))
+    DG = staticmethod(lambda *a, **k: _stable(_E0.DG(*a, **k)))
+    RT = staticmethod(lambda *a, **k: _stable(_E0.RT(*a, **k)))
+    Mixed = staticmethod(lambda subs: _stable(_E0.Mixed(subs)))
+
 
 class EV:
     """Meshes built exactly like mc.envs.mesh (not imported: keeps the forked process images small)."""
@@ -22,7 +49,10 @@ class EV:
         return ufl.Mesh(E.P(cellname, 1, (gdim,)))
 
 
-N_MANY = 12  # objects of one class in the "many" forms: every start in (B-12, B) straddles boundary B
+# objects of one class in the "many" forms: every start in (B-9, B) makes an adjacent pair straddle the digit
+# boundary B, while the zero history (counts 0..8) does not straddle one itself
+N_MANY = 9
+N_IDX = 12
 
 
 def _tri():
@@ -110,10 +140,10 @@ def const_many_product():
 def const_many_sum_spaced():
     # constants used in the form are every second created one
     m, S = _tri()
-    cs = [ufl.Constant(m) for _ in range(2 * N_MANY)]
-    used = cs[1::2]
+    cs = [ufl.Constant(m) for _ in range(N_MANY)]
+    used = cs[0::2]
     e = used[0] + used[1]
-    for n in range(2, N_MANY, 2):
+    for n in range(1, len(used) - 1):
         e = e * (used[n] + used[n + 1])
     return e * ufl.dx
 
@@ -248,13 +278,13 @@ def two_mesh_coefficients():
     return f * g * v * ufl.dx(m1)
 
 
-class _MixedSeq(E.Mixed):
+class _MixedSeq(_E0.Mixed):
     """Mixed element on a CellSequence (one cell per sub element), as needed by MeshSequence."""
 
     def __init__(self, subs):
-        E.Mixed.__init__(self, subs)
+        _E0.Mixed.__init__(self, subs)
         self._cell = CellSequence(tuple(e.cell for e in subs))
-        self._rep = f"_MixedSeq({list(subs)!r})"
+        _stable(self)
 
 
 def mesh_sequence_mixed():
@@ -382,14 +412,14 @@ def index_many():
     m = EV.mesh("triangle")
     w = ufl.Coefficient(ufl.FunctionSpace(m, E.P("triangle", 1, (2,))))
     g = ufl.Coefficient(ufl.FunctionSpace(m, E.P("triangle", 1, (2,))))
-    ii = ufl.indices(N_MANY)
+    ii = ufl.indices(N_IDX)
     e = w[ii[0]] * g[ii[1]]
-    for n in range(2, N_MANY):
+    for n in range(2, N_IDX):
         e = e * (w[ii[n]] if n % 2 == 0 else g[ii[n]])
     # contract pairs (0,11), (1,10), ... via a rank-12 object would be huge; multiply by deltas instead
     I = ufl.Identity(2)
-    for n in range(N_MANY // 2):
-        e = e * I[ii[n], ii[N_MANY - 1 - n]]
+    for n in range(N_IDX // 2):
+        e = e * I[ii[n], ii[N_IDX - 1 - n]]
     return e * ufl.dx
 
 
